@@ -331,7 +331,7 @@ class Engine:
         (statement-level calls with effects go through exec_call)"""
         M = self.M
         f = e.func
-        args = [self.ev(a, p, fr) for a in e.args]
+        args = [self.ev(a, p, fr) for a in e.args] + [("kw", k.arg, self.ev(k.value, p, fr)) for k in e.keywords if k.arg]
         if isinstance(f, ast.Name):
             if f.id == "cast" and len(args) == 2:
                 return args[1]
@@ -566,7 +566,7 @@ class Engine:
         if src.startswith(LOG_PREFIX):
             p.effects.append(("log", tuple(ast.unparse(a) for a in e.args[1:]), e.lineno))
             return [(p, ("c", None))]
-        args = [self.ev(a, p, fr) for a in e.args]
+        args = [self.ev(a, p, fr) for a in e.args] + [("kw", k.arg, self.ev(k.value, p, fr)) for k in e.keywords if k.arg]
         recv = None
         callee = None
         if isinstance(f, ast.Attribute):
